@@ -904,3 +904,21 @@ def edge_says(f, cond, k, lhs_pred, ops, rhs_pred):
         if lhs_pred(l) and rhs_pred(r) and any(x in implied[o] for x in ops):
             return True
     return False
+
+
+def carries(f, expr, call_ids, depth=0):
+    """does the value of `expr` come from one of the calls: the call is inside the expression, or the expression reads a local every definition of which carries it"""
+    from . import rd
+    ids = set(call_ids)
+    for x in f.walk(expr):
+        if x in ids:
+            return True
+    if depth > 3:
+        return False
+    for x in f.walk(expr):
+        sx = f.stmts[x]
+        if sx['k'] == 'DeclRefExpr' and sx.get('dk') == 'Var':
+            defs = rd.local_defs(f, sx['d'])
+            if defs and all(d['kind'] in ('init', '=') and d['rhs'] is not None and carries(f, d['rhs'], ids, depth + 1) for d in defs):
+                return True
+    return False
